@@ -470,20 +470,21 @@ void a_complex_asin_(a_complex *ctx)
         }
         if (a <= a_crossover)
         {
-            a_real am1;
             if (x < 1)
             {
-                am1 = A_REAL_C(0.5) * (y2 / (r + x + 1) + y2 / (s + 1 - x));
+                /* am1 = y*y*q and sqrt((a+1)*am1) = y*sqrt((a+1)*q): the same value, but it survives y*y underflowing */
+                a_real const q = A_REAL_C(0.5) * (1 / (r + x + 1) + 1 / (s + 1 - x));
+                ctx->imag = a_real_log1p(y * (y * q + a_real_sqrt((a + 1) * q)));
             }
             else
             {
-                am1 = A_REAL_C(0.5) * (y2 / (r + x + 1) + (s + x - 1));
+                a_real const am1 = A_REAL_C(0.5) * (y2 / (r + x + 1) + (s + x - 1));
+                ctx->imag = a_real_log1p(am1 + a_real_sqrt((a + 1) * am1));
             }
-            ctx->imag = a_real_log1p(am1 + a_real_sqrt((a + 1) * am1));
         }
         else
         {
-            ctx->imag = a_real_log(a + a_real_sqrt(a * a - 1));
+            ctx->imag = a_real_acosh(a); /* log(a + sqrt(a*a - 1)) without squaring a (overflows for huge arguments) */
         }
         if (real < 0) { ctx->real = -ctx->real; }
         if (imag < 0) { ctx->imag = -ctx->imag; }
@@ -561,20 +562,21 @@ void a_complex_acos_(a_complex *ctx)
         }
         if (a <= a_crossover)
         {
-            a_real am1;
             if (x < 1)
             {
-                am1 = A_REAL_C(0.5) * (y2 / (r + x + 1) + y2 / (s + 1 - x));
+                /* am1 = y*y*q and sqrt((a+1)*am1) = y*sqrt((a+1)*q): the same value, but it survives y*y underflowing */
+                a_real const q = A_REAL_C(0.5) * (1 / (r + x + 1) + 1 / (s + 1 - x));
+                ctx->imag = a_real_log1p(y * (y * q + a_real_sqrt((a + 1) * q)));
             }
             else
             {
-                am1 = A_REAL_C(0.5) * (y2 / (r + x + 1) + (s + x - 1));
+                a_real const am1 = A_REAL_C(0.5) * (y2 / (r + x + 1) + (s + x - 1));
+                ctx->imag = a_real_log1p(am1 + a_real_sqrt((a + 1) * am1));
             }
-            ctx->imag = a_real_log1p(am1 + a_real_sqrt((a + 1) * am1));
         }
         else
         {
-            ctx->imag = a_real_log(a + a_real_sqrt(a * a - 1));
+            ctx->imag = a_real_acosh(a); /* log(a + sqrt(a*a - 1)) without squaring a (overflows for huge arguments) */
         }
         if (real < 0) { ctx->real = A_REAL_PI - ctx->real; }
         if (imag >= 0) { ctx->imag = -ctx->imag; }
